@@ -2,7 +2,12 @@
 """Prints the prompt for a mutation sub-agent: only the property text and its scratch worktree."""
 import json, sys
 pid = sys.argv[1]
-wt = "/tmp/wt-%s" % pid
+rnd = int(sys.argv[2]) if len(sys.argv) > 2 else 1
+wt = "/tmp/wt-%s" % pid if rnd == 1 else "/tmp/wt%d-%s" % (rnd, pid)
+extra = "" if rnd == 1 else (" This is a LATER ROUND: the most obvious ways of breaking this property have been tried already. Look in less obvious places - helpers the "
+    "anchored code calls, boundary conditions and sizes, rarely taken branches (error paths, retries, reconnects, fallbacks), concurrency details (ordering of two "
+    "statements, a lock released early, a shared buffer), interactions between two configuration options - and do not use the first idea that comes to mind. "
+    "Deliver each demonstration as ONE self-contained test file if at all possible.")
 p = [json.loads(l) for l in open('/verif/properties.jsonl') if json.loads(l)['id'] == pid][0]
 prop = {k: p[k] for k in ("id", "title", "statement", "quantifier", "why_tests_cant", "anchors")}
 print(f"""You are helping calibrate a verification effort for the Go project bejelith/RedisShake (a fork of Alibaba RedisShake: dumps, decodes, restores and live-syncs Redis data via RDB parsing and PSYNC replication). You have your own scratch git worktree of the repository at {wt} (Go module root: {wt}/src, module path github.com/alibaba/RedisShake). Work ONLY inside {wt}; never touch /repo or /verif (do not even read /verif). There is no network. Before any go command: `export GOFLAGS=-mod=mod GOPROXY=off GOSUMDB=off GOTOOLCHAIN=local`. Note: the package redis-shake/main does not compile in this tree and is irrelevant; everything else builds (`cd {wt}/src && go build ./pkg/... ./redis-shake/common/... ./redis-shake/dbSync/... ./redis-shake/filter/... ./redis-shake/checkpoint/... ./redis-shake/scanner/... ./redis-shake/metric/... ./redis-shake`). The existing test suite that must stay green is `cd {wt}/src && go test -vet=off -count=1 ./pkg/...` (the package pkg/libs/cupcake/rdb fails already on the unchanged tree because its fixtures are missing — ignore that one; everything else must pass). Files named hook_verif.go / hook_noverif.go / export_verif.go and calls to verifGate/verifEvent are inert instrumentation: leave them alone.
@@ -11,7 +16,7 @@ Here is ONE semantic property that the code is supposed to satisfy:
 
 {json.dumps(prop, indent=1)}
 
-Your task: produce TWO different, realistic code changes (bugs a developer could plausibly introduce in a refactoring, optimisation or "fix"), each of which BREAKS this property while the tree still compiles and the existing test suite still passes. The two should break the property through different mechanisms / different code sites. Prefer changes that need something specific to manifest — a particular interleaving, a crash or fault at a particular point, a multi-step sequence of operations, an unusual input or configuration, a boundary size, or two cooperating sites that each look fine alone — NOT ones that ordinary use would expose at once (e.g. do not simply make a function always fail). Keep each change small (a few lines) and local to non-test, non-hook source files.
+Your task: produce TWO different, realistic code changes (bugs a developer could plausibly introduce in a refactoring, optimisation or "fix"), each of which BREAKS this property while the tree still compiles and the existing test suite still passes. The two should break the property through different mechanisms / different code sites. Prefer changes that need something specific to manifest — a particular interleaving, a crash or fault at a particular point, a multi-step sequence of operations, an unusual input or configuration, a boundary size, or two cooperating sites that each look fine alone — NOT ones that ordinary use would expose at once (e.g. do not simply make a function always fail). Keep each change small (a few lines) and local to non-test, non-hook source files.{extra}
 
 For each change k in {{1,2}} deliver a directory {wt}/mutant{{k}}/ containing:
  - patch.diff : `git -C {wt} diff` of ONLY that change against the worktree's HEAD (apply-able with `git apply` from the repository root); make sure the worktree is clean (git checkout -- .) before you start the second change and when you finish.
